@@ -12,6 +12,30 @@ def gen_su_data(r, tier):
     return ss.gen_startup_data(r, 150 if tier == "quick" else 3000)
 
 
+def gen_restart_together(r, tier):
+    """several fans sharing ONE database file, analysed once, then restarted together again and again (what a daemon
+    restart does: all controllers look their stored data up at the same moment) - no restart may analyse (seed C15d:
+    a database handle shared between controllers was closed under a concurrent look-up)"""
+    ops = []
+    for _ in range(8 if tier == "quick" else 120):
+        par = r.below(2)
+        ops.append(f"#case su parallel={par} restart-together")
+        ops.append(f"su.open parallel={par} yield_us={r.range(20, 60)}")
+        n = r.range(3, 6)
+        ids = [f"t{i}" for i in range(n)]
+        for fid in ids:
+            ops.append(ss._fan_line(fid, r.pick(["hwmon", "hwmon", "file"]), r.chance(0.15), r.chance(0.3), True, r.chance(0.2),
+                                    r.pick([8, 16, 32]), r.range(5, 90)))
+        ops.append(f"su.together fans={','.join(ids)} delays_us={','.join('0' for _ in ids)}")
+        for _ in range(r.range(8, 16) if tier == "quick" else r.range(40, 120)):
+            ops.append(f"su.together fans={','.join(r.shuffle(ids))} delays_us={','.join(str(r.pick([0, 0, r.range(0, 150)])) for _ in ids)}")
+        # the first step of those restarts in isolation, many times: concurrent look-ups of the stored entries
+        # (two at a time: the database is then opened and closed again and again instead of staying open throughout)
+        for _ in range(3):
+            ops.append(f"su.lookups fans={','.join(r.shuffle(ids)[:2])} rounds=1 ms={500 if tier == 'quick' else 3000}")
+    return ops
+
+
 class C15(Prop):
     id = "C15"
     lean_modules = ["Fan2go.Props.C15", "Fan2go.Props.C15b"]
@@ -26,10 +50,32 @@ class C15(Prop):
             "the real waitForFanToSettle on scripted RPM inputs. non-trivial = distinct (fan declaration, op sequence shape)")
     assumptions = ["the bodies of `fan2go fan reset` / `fan init` are re-stated in the harness; their call sequences are regenerated facts (fact_cli_bodies)",
                    "database operations succeed (C14's subject)"]
-    streams = [Stream("startup", gen_su, parallel=8), Stream("startup-data", gen_su_data, parallel=8)]
+    streams = [Stream("startup", gen_su, parallel=8), Stream("startup-data", gen_su_data, parallel=8),
+               # oracle-only (real goroutines, real bbolt file locks): restarts of several fans at once
+               Stream("restart-together", gen_restart_together, parallel=2, exact=False, contract=lambda op, a, b: True, timeout=1800)]
 
     def oracle(self, name, ops, go):
         out = []
+        if name == "restart-together":
+            for cops, cgo in cases(ops, go):
+                started = False
+                for i, (op, g) in enumerate(zip(cops, cgo)):
+                    if op.startswith("su.lookups") and started and kv(g).get("failed", "0") != "0":
+                        out.append(viol(f"{kv(g)['failed']} look-ups of stored RPM curves / PWM maps failed while the fans' controllers looked "
+                                        "them up at the same moment: start-up answers a failed look-up with the analysis", cops, cgo, upto=i))
+                        break
+                    if not op.startswith("su.together"):
+                        continue
+                    r = kv(g)
+                    ok = all(x == "ok" for x in r.get("res", "").split(","))
+                    if started and (r.get("analysed") != "0" or not ok):
+                        out.append(viol(f"restart of fans whose data are stored: {r.get('analysed')} of them were analysed again "
+                                        f"(results {r.get('res')})", cops, cgo, upto=i))
+                        break
+                    if not ok:
+                        break
+                    started = True
+            return out
         for cops, cgo in cases(ops, go):
             decl = {}
             fresh = {}   # fan -> True when its stored data were discarded (or never created)
